@@ -5,6 +5,7 @@ package helpers
 
 //@ package helpers
 //@ type Manager: guarded_by mx: items, roundRobinIndex
+//@ type WgCounter: atomic count
 
 // ---------------------------------------------------------------- manager.go
 // $lenOf(x): what x.Len() currently returns (ghost view of the bound queue's state). Len() is a pure observer.
